@@ -52,6 +52,8 @@ def _mk(ex, node, name, env, ghost):
             o = Opaque(name=name)
             o.ghost.update(ghost)
             return o
+        if t in env:
+            return env[t]  # a parameter that IS one of the size symbols (or an earlier parameter)
         raise Unsupported(f"typespec {t}")
     if isinstance(node, ast.Constant):
         return node.value
